@@ -138,8 +138,11 @@ class ManagedEnv(Env):
         oid = s.oid_of(M, st, a[1])
         st.logev('detach', oid, th.name)
         s.g_obj(st, oid, detached='+1')
-        if s.cfg.get('cb_points') and not M.task_mode and not s.lock_held(M, st, th):
-            return [('yield', st, 'cb.detach')]
+        if s.cfg.get('cb_points') and not M.task_mode:
+            # user code may block here: a schedule point unless the calling thread holds a pool lock (then no other
+            # thread can observe the pool anyway); the skipped points are logged so that the native driver follows
+            if not s.lock_held(M, st, th): return [('yield', st, 'cb.detach')]
+            st.logev('env', 'cbskip', 'cb.detach')
         return s.ret(st, UNIT)
 
     def lock_held(s, M, st, th):
@@ -190,12 +193,15 @@ class ManagedEnv(Env):
             st.logev('pred_call', oid, th.name, s.metrics_tuple(met))
             s.on_seen(M, st, 'pred', oid, met)
             outs = []
+            pt = s.cfg.get('cb_points') and not M.task_mode
+            free = pt and not s.lock_held(M, st, th)
             for o in s.cfg['pred']:
                 st2 = st.clone(); st2.logev('env', 'pred', oid, o)
-                if o == 'keep': outs.append(('ret', st2, True))
+                if pt and not free and o != 'panic': st2.logev('env', 'cbskip', 'cb.pred')
+                if o == 'keep': outs.append(('yield', st2, 'cb.pred', True) if free else ('ret', st2, True))
                 elif o == 'remove':
                     st2.gset('pred_removed', st2.gget('pred_removed', ()) + (oid,))
-                    outs.append(('ret', st2, False))
+                    outs.append(('yield', st2, 'cb.pred', False) if free else ('ret', st2, False))
                 elif o == 'panic': outs.append(('panic', st2, 'retain predicate panicked', 'user'))
             return outs
         return None
